@@ -216,6 +216,20 @@ Proof.
   - unfold walk. rewrite count_deliver_app, Q. pose proof (route_walk_one_delivery w a m h). lia.
 Qed.
 
+(* a send that is refused for an over-long service name causes nothing anywhere *)
+Theorem refused_send_causes_nothing w src fsvc to tsvc data h :
+  send_refused fsvc tsvc = true ->
+  send_api w src fsvc to tsvc data h = ([], SE_TOOLONG)
+  /\ count_deliver (fst (send_api w src fsvc to tsvc data h)) = 0%nat
+  /\ count_forward (fst (send_api w src fsvc to tsvc data h)) = 0%nat.
+Proof. intro R. unfold send_api. rewrite R. repeat split. Qed.
+
+(* ... and an accepted one is exactly the walk of the datagram *)
+Theorem accepted_send_is_walk w src fsvc to tsvc data h :
+  send_refused fsvc tsvc = false ->
+  fst (send_api w src fsvc to tsvc data h) = walk w src (origin_msg src fsvc to tsvc data h) h.
+Proof. intro R. unfold send_api. rewrite R. reflexivity. Qed.
+
 (* ---------- C10: reach iff distance <= hops; expiry reported by the h-th node ---------- *)
 
 Definition delivered (t : list event) : bool := existsb is_deliver t.
